@@ -270,6 +270,12 @@ different allocation patterns in the decoder (peak below the bound), additive pu
 hand-written `Debug`, byte-level trimming, a two-entry local cache in the search, code moved into a new module with `#[cold]` helpers and `i128`
 intermediates. All six checks stayed silent on all eight again.
 
+Third session: after the round-11 additions (`C07.error_value`, dot-prefixed ambient values, the gate per feature set) the behaviour-preserving
+changes closest to them were re-run on the new machinery (`benign/*/result.json`): `b4` (a different civil-from-days algorithm in `from_timespec`), `b5` (`find_date_time` split into helpers), `b27` (additive public API including a new
+public type), `b28` (code moved into a new module, `i128` intermediates), `b36` (restructured designation parsing) and `b6` (local `Vec<String>` of candidate paths), each under
+all six checks - 36 runs, all silent; the remaining re-runs were cut by the session's time limit, the second session's 144 silent runs stand for the rest.
+Three stored breakages that depend on the ambient value list (`C15-r2c15-m3`, `C20-r2c20-m3`, `C15-r10c15-m2`) were re-run against the lengthened list and are still reported.
+
 Residual risk, stated plainly: a data race on state reached only through pointers (so that no static or TLS byte changes) that needs a
 preemption between two specific instructions is found by the Miri tier only with luck; tier A never preempts inside a call.
 """)
